@@ -137,3 +137,25 @@ def explicit_raise(path):
 
 def path_raises_only(path, *classes):
     return path.exit == 'raise' and set(path.exc['names']) <= set(classes)
+
+
+def is_attr(term, base, attr):
+    """term is base.attr, whatever its version stamp."""
+    return term is not None and term[0] == 'a' and term[1] == base and \
+        term[2] == attr
+
+
+def is_self_attr(term, attr):
+    return is_attr(term, ('p', 'self'), attr)
+
+
+def attr_chain(term):
+    """'self.a.b' for attribute chains over a parameter, else None."""
+    parts = []
+    while term is not None and term[0] == 'a':
+        parts.append(term[2])
+        term = term[1]
+    if term is not None and term[0] == 'p':
+        parts.append(term[1])
+        return '.'.join(reversed(parts))
+    return None
